@@ -866,3 +866,35 @@ def r12_cached_modulus_matches_width(ctx):
 
 
 RULES += [r12_cached_modulus_matches_width]
+
+
+def r13_constraints_filtered_for_overflow(ctx):
+    ctx.rule("C13.r13", "wrapped-interval domain: a linear constraint reaches the generic linear interval solver (which computes the "
+             "residuals in wrapped arithmetic and refines the pivot by a signed comparison) only after a test that no residual can "
+             "overflow - the test the sibling wrapped_numerical_domain applies (may_overflow) before it trusts a constraint", floor=1)
+    WD = "include/crab/domains/wrapped_interval_domain.hpp"
+    fs = [f for f in ctx.db.fns(WD, cpk="crab::domains::wrapped_interval_domain", name="operator+=")
+          if f.get("body") and "linear_constraint_system" in (f.get("psig") or "")]
+    if not ctx.need(fs, "wrapped_interval_domain::operator+=(linear_constraint_system_t)"):
+        return
+    seen = set()
+    for fn in fs:
+        if fn["line"] in seen:
+            continue
+        seen.add(fn["line"])
+        body = fn["body"]
+        adds = [c for c in walk(body) if is_call(c, name=("add", "run")) and ("o" not in c or is_this(strip(c.get("o"))) or True)]
+        adds = [c for c in adds if callee(c) and callee(c)["name"] in ("add", "run")]
+        if not adds:
+            ctx.undecided("operator+=: the call that runs the solver was not found", fn, body)
+            continue
+        filt = [c for c in walk(body) if c.get("k") == "call" and callee(c) and "overflow" in callee(c)["name"].lower()]
+        if filt:
+            ctx.ok("constraints are filtered by %s before the solver runs" % callee(filt[0])["name"], fn, filt[0])
+        else:
+            ctx.bad("wrapped_interval_domain::operator+= gives every well-typed constraint to the linear interval solver without an overflow "
+                    "test of its residuals: y = -128 (8 bits); assume(x + y <= 0) computes the residual -y = 128 as -128 and refines x to "
+                    "[-128,-128], excluding x = 0 (0 + -128 <= 0)", fn, adds[0], sig="wrapped-constraints-unfiltered")
+
+
+RULES += [r13_constraints_filtered_for_overflow]
